@@ -173,4 +173,25 @@ CLAIMS = {
                 "with the inlined text.",
         "note": _TB,
     },
+    "C18": {
+        "level": "other",
+        "technique": "branch-condition-to-regular-language translation of "
+                     "the path/URL classifier (incl. length of the "
+                     "priority-chosen regex match) + decision-table "
+                     "cross-check of the URL helpers, gates and parser "
+                     "constructions",
+        "text": "Decides the path-vs-URL classifier exactly as a regular "
+                "language; the file: normalisation rewrite (condition and "
+                "slice bound) and the agreement of its three copies; that a "
+                "filesystem path passes abspath then pathname2url exactly "
+                "once and gets the 'file://' prefix on both routes (same "
+                "expression); that the three fragment gates raise iff the "
+                "fragment is non-empty and pass on the defragmented URL; "
+                "that every urljoin base is the parser's own resource URL "
+                "and parsers are built with the URL of the resource they "
+                "parse; the file-object name rule and package: routing.  "
+                "Does not decide what abspath, pathname2url, urljoin, "
+                "urlopen do for a particular name or working directory.",
+        "note": _TB,
+    },
 }
